@@ -150,3 +150,9 @@ func FilesRead() []string { return readLog }
 
 // Bound records a bound of the harness in the evidence.
 func Bound(name string, v int) {}
+
+// ByteFrom returns an arbitrary byte among the characters of set.
+func ByteFrom(set string) byte { return byte(next()) }
+
+// StringFrom returns a string of n arbitrary bytes among the characters of set.
+func StringFrom(n int, set string) string { return String(n) }
